@@ -141,10 +141,12 @@ class BaseMySensorsProtocol(serial.threaded.LineReader):
         """Call connection lost callbacks."""
         if self.gateway.on_conn_lost is not None:
             self.gateway.on_conn_lost(self.gateway, exc)
+        # Forget the lost transport before asking for a reconnect. The new
+        # connection may be made, and set as transport, before we return.
+        self.transport = None
         if exc:
             _LOGGER.error(exc)
             self.conn_lost_callback()
-        self.transport = None
 
 
 class AsyncMySensorsProtocol(BaseMySensorsProtocol, asyncio.Protocol):
